@@ -97,6 +97,8 @@ def _run_chunk(args):
             # sub-checks catch what the implementation may legitimately raise.
             r = {"harness_error": "%s: uncaught %s" % (sc.name, traceback.format_exc()),
                  "point": p}
+        if isinstance(r, dict):
+            r["_chunk_lo"] = lo
         out.append((i, r))
     return out
 
@@ -115,7 +117,10 @@ def run_subcheck(sc, nproc=None):
         chunk = sc.chunk or max(1, min(256, n // (nproc * 8) or 1))
         jobs = [(key, lo, min(n, lo + chunk)) for lo in range(0, n, chunk)]
         ctx = multiprocessing.get_context("fork")
-        with ctx.Pool(min(nproc, len(jobs))) as pool:
+        # one freshly forked child per chunk: process-level state left behind by the implementation
+        # (module-level caches, globals) cannot travel further than the chunk it arose in, and a
+        # violation that depends on it can be replayed by re-running the chunk's earlier points
+        with ctx.Pool(min(nproc, len(jobs)), maxtasksperchild=1) as pool:
             res = []
             for part in pool.imap(_run_chunk, jobs):
                 res.extend(part)
